@@ -25,7 +25,7 @@ def handler(kind):
 @handler("bisection")
 def h_bisection(rec):
     m, rp = rec["model"] or {}, rec["replay"]
-    if rp["fn"] == "_autoregressive_bisection_search":
+    if rp["fn"] in ("_autoregressive_bisection_search", "AutoregressiveBisectionInverter"):
         import grids
 
         fails = grids.c10_cases("quick", 0, only_fn=rp["fn"])
@@ -267,6 +267,10 @@ HANDLERS["losses"] = _grid_handler("rt_c17", "C17 loss re-evaluation")
 def _h_simple(rec):
     cls = (rec.get("replay") or {}).get("cls", "")
     prop = rec["property"] if rec["property"] in ("C01", "C02") else "C01"
+    if cls in ("Flip", "Permute"):
+        f0 = rt.rt_simple_fwd("quick", first_only=True, only=cls)
+        if f0:
+            return True, f0[0]["what"]
     fails = rt.rt_zoo_B(prop, first_only=True, only=cls) or rt.rt_zoo_B("C02" if prop == "C01" else "C01", first_only=True, only=cls)
     if fails:
         return True, fails[0]["what"]
